@@ -179,8 +179,16 @@ theorem schedule_text {t0 : TV} {a : ActId} {s : Option SigId} {wh : When Rat} {
     (h : w.schedule a s wh = some w') (h0 : TExt t0 w.tv) : TExt t0 w'.tv := by rw [schedule_tv h]; exact h0
 
 /-- one backward step for a class B goal `TExt t0 (f w ..).tv`: the lemma of `f` (extended below, lemma by lemma) -/
-syntax "tx_apply" : tactic
-macro_rules | `(tactic| tx_apply) => `(tactic| fail "no class B lemma applies")
+elab "tx_apply" : tactic => viewApply "_text"
+
+/-- the writers of the trace, tried by unification when the world term is not headed by a function (a record update
+around `w.emit ..`) -/
+syntax "tx_emit" : tactic
+macro_rules | `(tactic| tx_emit) => `(tactic| fail "not an emit")
+
+/-- lemmas of functions that return `Option (World _)`: applied to a hypothesis `_ = some w'` (rules added below) -/
+syntax "tx_hyp" : tactic
+macro_rules | `(tactic| tx_hyp) => `(tactic| fail "no hypothesis lemma applies")
 
 /-- backward chaining for class B goals from a hypothesis `h : TExt t0 w.tv` -/
 syntax "tx " ident : tactic
@@ -194,7 +202,9 @@ macro_rules
       | (rw [tv_foldl _ (by intro w x; simp [World.tv])])
       | (have hfst := congrArg Prod.fst ‹_ = (_, _)›; dsimp only at hfst; subst hfst)
       | (refine schedule_text ‹_ = some _› ?_)
+      | tx_hyp
       | tx_apply
+      | tx_emit
       | split
       | (dsimp only; split))))
 
@@ -209,7 +219,7 @@ theorem emit_text {t0 : TV} (a : ActId) (tag : String) (args : List Int) (h0 : T
     rcases List.mem_cons.mp he with rfl | he
     · exact ht
     · exact hs e he
-macro_rules | `(tactic| tx_apply) => `(tactic| apply emit_text)
+macro_rules | `(tactic| tx_emit) => `(tactic| apply emit_text)
 theorem emitAs_text {t0 : TV} (a : ActId) (lb : Int) (tag : String) (args : List Int) (h0 : TExt t0 w.tv) :
     TExt t0 (w.emitAs a lb tag args).tv := by
   obtain ⟨ht, l, hl, hs⟩ := h0
@@ -220,13 +230,13 @@ theorem emitAs_text {t0 : TV} (a : ActId) (lb : Int) (tag : String) (args : List
     rcases List.mem_cons.mp he with rfl | he
     · exact ht
     · exact hs e he
-macro_rules | `(tactic| tx_apply) => `(tactic| apply emitAs_text)
+macro_rules | `(tactic| tx_emit) => `(tactic| apply emitAs_text)
 theorem emitScope_text {t0 : TV} (a : ActId) (s : ScopeId) (tag : String) (args : List Int) (h0 : TExt t0 w.tv) :
     TExt t0 (w.emitScope a s tag args).tv := by
   unfold emitScope; split
   · exact h0
   · exact emit_text w a tag args h0
-macro_rules | `(tactic| tx_apply) => `(tactic| apply emitScope_text)
+macro_rules | `(tactic| tx_emit) => `(tactic| apply emitScope_text)
 
 theorem ensureTrigger_tv {c : CondId} {w w' : World Rat} (h : w.ensureTrigger c = some w') : w'.tv = w.tv := by
   unfold ensureTrigger at h
@@ -235,7 +245,7 @@ theorem ensureTrigger_tv {c : CondId} {w w' : World Rat} (h : w.ensureTrigger c 
   · cases h; rfl
 theorem ensureTrigger_text {t0 : TV} {c : CondId} {w w' : World Rat} (h : w.ensureTrigger c = some w') (h0 : TExt t0 w.tv) :
     TExt t0 w'.tv := by rw [ensureTrigger_tv h]; exact h0
-macro_rules | `(tactic| tx_apply) => `(tactic| refine ensureTrigger_text ‹_ = some _› ?_)
+macro_rules | `(tactic| tx_hyp) => `(tactic| refine ensureTrigger_text ‹_ = some _› ?_)
 
 theorem subscribe_tv {c : CondId} {a : ActId} {s : SigId} {w w' : World Rat} (h : w.subscribe c a s = some w') :
     w'.tv = w.tv := by
@@ -258,37 +268,29 @@ theorem subscribe_tv {c : CondId} {a : ActId} {s : SigId} {w w' : World Rat} (h 
   · cases h; exact tv_condSubscribe _ _ _ _
 theorem subscribe_text {t0 : TV} {c : CondId} {a : ActId} {s : SigId} {w w' : World Rat} (h : w.subscribe c a s = some w')
     (h0 : TExt t0 w.tv) : TExt t0 w'.tv := by rw [subscribe_tv h]; exact h0
-macro_rules | `(tactic| tx_apply) => `(tactic| refine subscribe_text ‹_ = some _› ?_)
+macro_rules | `(tactic| tx_hyp) => `(tactic| refine subscribe_text ‹_ = some _› ?_)
 
 theorem doSuspend_text {t0 : TV} (a : ActId) (fs : List (Frame Rat)) (wh : When Rat) (h0 : TExt t0 w.tv) :
     TExt t0 (w.doSuspend a fs wh).tv := by unfold doSuspend; tx h0
-macro_rules | `(tactic| tx_apply) => `(tactic| apply doSuspend_text)
 
 theorem doNotifAwait_text {t0 : TV} (a : ActId) (fs : List (Frame Rat)) (c : CondId) (h0 : TExt t0 w.tv) :
     TExt t0 (w.doNotifAwait a fs c).tv := by unfold doNotifAwait; tx h0
-macro_rules | `(tactic| tx_apply) => `(tactic| apply doNotifAwait_text)
 
 theorem doCondAwait_text {t0 : TV} (a : ActId) (fs : List (Frame Rat)) (c : CondId) (h0 : TExt t0 w.tv) :
     TExt t0 (w.doCondAwait a fs c).tv := by unfold doCondAwait; tx h0
-macro_rules | `(tactic| tx_apply) => `(tactic| apply doCondAwait_text)
 
 /-! ### Run.lean: helpers -/
 tvlemma tv_lockRelease (l : Name) : w.lockRelease l := by unfold lockRelease; tv_a
 theorem beginClose_text {t0 : TV} (a : ActId) (fs : List (Frame Rat)) (s : ScopeId) (o : Option ExnId) (g : Bool) (h0 : TExt t0 w.tv) :
     TExt t0 (w.beginClose a fs s o g).tv := by unfold beginClose; tx h0
-macro_rules | `(tactic| tx_apply) => `(tactic| apply beginClose_text)
 theorem continueClose_text {t0 : TV} (a : ActId) (fs : List (Frame Rat)) (s : ScopeId) (todo : List TaskId) (r : ExnId) (v : Bool) (o : Option ExnId) (g : Bool) (h0 : TExt t0 w.tv) :
     TExt t0 (w.continueClose a fs s todo r v o g).tv := by unfold continueClose; tx h0
-macro_rules | `(tactic| tx_apply) => `(tactic| apply continueClose_text)
 theorem queueGetEnter_text {t0 : TV} (a : ActId) (fs : List (Frame Rat)) (q : Name) (h0 : TExt t0 w.tv) :
     TExt t0 (w.queueGetEnter a fs q).tv := by unfold queueGetEnter; tx h0
-macro_rules | `(tactic| tx_apply) => `(tactic| apply queueGetEnter_text)
 theorem lockAcquired_text {t0 : TV} (a : ActId) (fs : List (Frame Rat)) (l : Name) (c : LockCont Rat) (h0 : TExt t0 w.tv) :
     TExt t0 (w.lockAcquired a fs l c).tv := by unfold lockAcquired; tx h0
-macro_rules | `(tactic| tx_apply) => `(tactic| apply lockAcquired_text)
 theorem acquireLock_text {t0 : TV} (a : ActId) (fs : List (Frame Rat)) (l : Name) (c : LockCont Rat) (h0 : TExt t0 w.tv) :
     TExt t0 (w.acquireLock a fs l c).tv := by unfold acquireLock; tx h0
-macro_rules | `(tactic| tx_apply) => `(tactic| apply acquireLock_text)
 
 theorem tv_foldl_awake (l : List CondId) : (l.foldl (fun (w : World Rat) c => if w.eval c then w.awakeAll c else w) w).tv = w.tv :=
   tv_foldl _ (by intro w x; split <;> simp [tv]) l w
@@ -301,14 +303,11 @@ tvlemma tv_pipeFinish (p : Name) (i : Nat) : w.pipeFinish p i := by unfold pipeF
 
 theorem pipeWindowStart_text {t0 : TV} (a : ActId) (fs : List (Frame Rat)) (p : Name) (i : Nat) (t1 t2 t3 : Rat) (h0 : TExt t0 w.tv) :
     TExt t0 (w.pipeWindowStart a fs p i t1 t2 t3).tv := by unfold pipeWindowStart; tx h0
-macro_rules | `(tactic| tx_apply) => `(tactic| apply pipeWindowStart_text)
 theorem tickNext_text {t0 : TV} (a : ActId) (fs : List (Frame Rat)) (b : Bool) (p l : Rat) (n : Nat) (body : List (Stmt Rat))
     (h0 : TExt t0 w.tv) : TExt t0 (w.tickNext a fs b p l n body).tv := by unfold tickNext; tx h0
-macro_rules | `(tactic| tx_apply) => `(tactic| apply tickNext_text)
 theorem borrowEnter_text {t0 : TV} (a : ActId) (fs : List (Frame Rat)) (r : Name) (am : List Int) (bind : Name)
     (body : List (Stmt Rat)) (c : Bool) (h0 : TExt t0 w.tv) : TExt t0 (w.borrowEnter a fs r am bind body c).tv := by
   unfold borrowEnter; tx h0
-macro_rules | `(tactic| tx_apply) => `(tactic| apply borrowEnter_text)
 
 /-! ### Run.lean: the SimPy layer -/
 tvlemma tv_setPyEv (e : Nat) (f : PyEvent → PyEvent) : w.setPyEv e f := rfl
@@ -325,19 +324,14 @@ tvlemma tv_pySetValue (e : Nat) (v : Int × Option ExnId) (cv : List Nat) : (w.p
 tvlemma tv_pyInterrupt (p : Nat) (c : Int) : w.pyInterrupt p c := by unfold pyInterrupt; tv_a
 theorem pySync_text {t0 : TV} (a : ActId) (lbl : Int) (i : PyInstr Rat) (h0 : TExt t0 w.tv) :
     TExt t0 ((w.pySync a lbl i).1).tv := by unfold pySync; tx h0
-macro_rules | `(tactic| tx_apply) => `(tactic| apply pySync_text)
 theorem pyWaitInterruptible_text {t0 : TV} (a : ActId) (fs : List (Frame Rat)) (p e : Nat) (h0 : TExt t0 w.tv) :
     TExt t0 (w.pyWaitInterruptible a fs p e).tv := by unfold pyWaitInterruptible; tx h0
-macro_rules | `(tactic| tx_apply) => `(tactic| apply pyWaitInterruptible_text)
 theorem pyResume_text {t0 : TV} (a : ActId) (fs : List (Frame Rat)) (p : Nat) (what : List Int) (e : Option ExnId) (h0 : TExt t0 w.tv) :
     TExt t0 (w.pyResume a fs p what e).tv := by unfold pyResume; tx h0
-macro_rules | `(tactic| tx_apply) => `(tactic| apply pyResume_text)
 theorem pyCheckContinue_text {t0 : TV} (a : ActId) (fs : List (Frame Rat)) (e : Nat) (un : List Nat) (obs : Nat) (h0 : TExt t0 w.tv) :
     TExt t0 (w.pyCheckContinue a fs e un obs).tv := by unfold pyCheckContinue; tx h0
-macro_rules | `(tactic| tx_apply) => `(tactic| apply pyCheckContinue_text)
 tvlemma tv_pyCondFail (a : ActId) (fs : List (Frame Rat)) (e m : Nat) : w.pyCondFail a fs e m := by unfold pyCondFail; tv_a
 theorem pyGenStep_text {t0 : TV} (a : ActId) (fs : List (Frame Rat)) (p : Nat) (h0 : TExt t0 w.tv) :
     TExt t0 (w.pyGenStep a fs p).tv := by unfold pyGenStep; tx h0
-macro_rules | `(tactic| tx_apply) => `(tactic| apply pyGenStep_text)
 end World
 end USim.Machine
